@@ -157,6 +157,23 @@ CHECKS = {
         note=TRUST,
         technique='Rocq proof (partial) + differential co-execution and statement checking against the Python code',
     ),
+    'C11': dict(
+        ref='5.11',
+        text='Theorems in coq/Properties/C11.v: for EVERY text the copyright object is built (no exception) and the words '
+             '(str.split(); a lone full stop, the blank-line marker, is not counted) of all values of its dictionary form '
+             'are a permutation of the words of the input (per source line: after the colon of a declaration line, the '
+             'whole line otherwise): nothing lost, nothing invented. Proved stage by stage, each by induction with no '
+             'bound: lines -> field groups (every branch of the state machine, trimmed trailing blank lines hold no '
+             'word); fields -> paragraph (every value stored once under a fresh key, duplicates renamed not dropped; '
+             'known/extra keys distinct so the dictionary form overwrites nothing); every field converter followed by its '
+             'renderer keeps the words (single line, line list, whitespace list, formatted text, copyright statements, '
+             'license); extra data re-encoded as formatted text; merge of catch-all runs keeps every value of every '
+             'merged paragraph in order; fold moves all values of the unknown paragraph into the license text of the '
+             'empty license paragraph. The model is co-executed with copyright.py on texts biased to renaming, merging '
+             'and folding alone and combined, and the executable statement counts words on the implementation.',
+        note=TRUST + 'Modelled, not verified: the str.split/str.splitlines/str.strip whitespace tables (swept against CPython on all code points each run).',
+        technique='Rocq proof (induction over lines, fields, paragraphs) over a Gallina model + differential co-execution against the Python code',
+    ),
     'C12': dict(
         ref='5.12',
         text='Theorems in coq/Properties/C12.v (partial): for every parser state with a current field and every following '
